@@ -2,6 +2,7 @@ import Std.Data.HashMap
 import CacheModel.Invalidator
 import CacheModel.Index
 import CacheModel.Transfer
+import CacheModel.FootprintTable
 import CacheModel.DriverUtil
 
 /- Driver engines for the Invalidator (`iv`), the InvalidationIndex (`ix`) and the gob types hash (`gh`). -/
@@ -83,5 +84,9 @@ def ghXor (arg : String) : Option String := do
     | _ => none)
   let fp : Nat → BitVec 64 := fun t => BitVec.ofNat 64 (((items.find? (·.1 == t)).map (·.2)).getD 0)
   pure (toString (typesHash fp (items.map (·.1))).toNat)
+
+/-- `fp racy`: the unprotected conflicting pairs the footprint table predicts, as `loc:signature`. -/
+def fpRacy : String :=
+  " ".intercalate (((FP.racyPairs FP.table).map fun p => s!"{FP.locName p.1.loc}:{FP.sig p}").eraseDups)
 
 end Cache.Drv
